@@ -265,6 +265,17 @@ def appendCol (self items : Col) : Col :=
 def arrayCol (k : Kind) : Col := match k.array with | some c => c | none => Col.any
 def objectCol (k : Kind) : Col := match k.object with | some c => c | none => Col.any
 
+/-- `mod`: is the dividend a constant infinity? -/
+def modValueInf : Option Value → Bool
+  | some (.float b) => F64.isInf b
+  | _ => false
+
+/-- `mod`: the TypeDef chosen from the constant modulus -/
+def modTD : Option Value → TD
+  | some (.float b) => ⟨Kind.float, !F64.isNormal b⟩
+  | some (.int i) => ⟨Kind.integer, decide (i = 0)⟩
+  | _ => ⟨Kind.float.orInteger, true⟩
+
 /-- `FunctionExpression::type_def` of each function, for the argument slots `as`. -/
 def declaredFn (F : Fn) (as : ASlots) : TD :=
   let k0 := akind as 0
@@ -301,14 +312,8 @@ def declaredFn (F : Fn) (as : ASlots) : TD :=
   | .abs | .floor | .ceil | .round =>
     ⟨if k0.isFloat || k0.isInteger then k0 else intOrFloat, false⟩
   | .mod =>
-    let valueInf := match aconst as 0 with
-      | some (.float b) => F64.isInf b
-      | _ => false
-    let td : TD := match aconst as 1 with
-      | some (.float b) => ⟨Kind.float, !F64.isNormal b⟩
-      | some (.int i) => ⟨Kind.integer, decide (i = 0)⟩
-      | _ => ⟨Kind.float.orInteger, true⟩
-    if valueInf then ⟨td.kind, true⟩ else td
+    let td := modTD (aconst as 1)
+    if modValueInf (aconst as 0) then ⟨td.kind, true⟩ else td
   | .parseInt => ⟨Kind.integer, true⟩
   | .parseFloat => ⟨Kind.float, true⟩
   | .keys => ⟨Kind.ofArray (Col.empty.withUnknown Kind.bytes), false⟩
